@@ -839,6 +839,8 @@ def FLP.holdsQ (a : Nat → Rat) : FLP Rat → Bool
   | .flinEq cs xs c => decide (dotQ cs xs a = c)
   | .flinLe cs xs c => decide (dotQ cs xs a ≤ c)
   | .flinNe cs xs c => decide (dotQ cs xs a ≠ c)
+  | .reif op x y b => decide (a b = 1) == op.holdsN (a x) (a y)
+  | .boolOr ops r => decide (a r ≥ 1) == ops.any (fun o => decide (a o ≥ 1))
 
 namespace FLModel
 
